@@ -66,7 +66,7 @@ pub const CHECKS: &[Check] = &[
     },
     Check {
         id: "C05",
-        scenarios: &[("cq", 350_000, 7_000_000), ("life", 150_000, 3_000_000)],
+        scenarios: &[("cq", 350_000, 7_000_000), ("life", 150_000, 3_000_000), ("mt-life", 12_000, 400_000)],
         owns: &["cq."],
         level: "exploration",
         rule: "one case = one seeded run with completion queues of 1-16 entries, counters starting anywhere (incl. 2^32-k), batches split across Ring::poll calls, overflow, SKIP padding and reserved user_data completions; unpublished/released slots are poisoned (guard page); distinct = distinct abstract trace hash; non-trivial = a fault fired",
